@@ -8,6 +8,10 @@
 //	(b) every value of ~900 generated Go types (container depth <= 2 over 13 leaf kinds) with boundary leaves;
 //	(c) transactions, receipts (consensus + storage), block infos, logs, state accounts (full + slim), headers.
 //
+//	(a4) size-class boundaries of the scalar decoders (scalars.go): payload lengths around 1, 8/9, 20, 32/33,
+//	    55/56, 64/65, 255/256 x payload contents (canonical, leading zeros) x header forms x host position
+//	    x scalar target type; plus chain types carrying zero-padded integers.
+//
 // Oracles: an independent canonical-form recogniser (recog.go) + type conformance model decide what must be
 // accepted and what must be rejected; accept => Encode(Decode(s)) == s; Decode(Encode(v)) == v; encodings
 // byte-identical to the reference; no panic; bounded allocation. See DESIGN.md section 4 / C16.
@@ -37,7 +41,7 @@ func imin(a, b int) int {
 var (
 	sampleMu   sync.Mutex
 	samplesBy  = map[string][]interface{}{}
-	sampleCaps = map[string]int{"strings": 2, "alloc": 1, "values": 2, "chain": 1}
+	sampleCaps = map[string]int{"strings": 2, "alloc": 1, "values": 1, "chain": 1, "scalars": 1}
 )
 
 func keepSamples(st *stats) {
@@ -188,7 +192,7 @@ func rerunCases(rc replayCase, gts func() []*gtyp) []*vcase {
 	col := &collector{m: map[string]*vcase{}}
 	cx := &ctx{col: col, st: newStats()}
 	switch rc.Part {
-	case "strings", "alloc":
+	case "strings", "alloc", "scalars":
 		s, err := hex.DecodeString(rc.Input)
 		if err != nil {
 			panic(err)
@@ -204,7 +208,7 @@ func rerunCases(rc replayCase, gts func() []*gtyp) []*vcase {
 			evalUntyped(s, cx, rc.Part)
 			break
 		}
-		for _, t := range targets {
+		for _, t := range allTargets() {
 			if t.name != rc.Type {
 				continue
 			}
@@ -244,6 +248,7 @@ func rerunCases(rc replayCase, gts func() []*gtyp) []*vcase {
 func main() {
 	r = report.New("C16", "exploration")
 	initTargets()
+	initScalarTargets()
 	thorough := r.Thorough()
 	var gtCache []*gtyp
 	gts := func() []*gtyp {
@@ -306,6 +311,17 @@ func main() {
 		})
 	}
 	phase("boundary")
+	// 1c. size-class boundaries of the scalar decoders (scalars.go)
+	{
+		scalarThorough = thorough
+		ins := scalarInputs()
+		par.For(int64(len(ins)), 16, nil, func(i int64) {
+			st := newStats()
+			evalScalarInput(ins[i], &ctx{col: viol, st: st})
+			finishChunk(st)
+		})
+	}
+	phase("scalars")
 	// 2. generated values and 3. chain types: small, always completed
 	runValues(gts())
 	phase("values")
@@ -335,7 +351,7 @@ func main() {
 			return "(not reproduced)"
 		})
 	}
-	for _, p := range []string{"strings", "alloc", "values", "chain"} {
+	for _, p := range []string{"strings", "scalars", "alloc", "values", "chain"} {
 		for _, x := range samplesBy[p] {
 			r.Sample(x)
 		}
@@ -346,7 +362,12 @@ func main() {
 		fmt.Sprint(len(targets))+" target types via DecodeBytes, Stream over bytes.Reader, Stream over a plain reader with input limit, the go-ethereum v1.9.15 reference, and fed to "+
 		"Split/SplitString/SplitList/SplitUint64/CountValues/NewListIterator/Stream.Kind/Raw/List/Bytes; plus string/list headers claiming 56..2^64-1 bytes (minimal and leading-zero size, "+
 		"top level and nested, with and without payload) with a TotalAlloc bound of 1 MiB per decode; every header form (short, long with 1..8 size bytes, claimed size -1/0/+1) "+
-		"over string and list payloads of 0,1,2,3,54,55,56,57,255,256 bytes, top level and nested; (b) every value of every generated type (13 leaf kinds x 9 container constructors, "+
+		"over string and list payloads of 0,1,2,3,54,55,56,57,255,256 bytes, top level and nested; (a4) size classes of the scalar decoders: payload lengths 0,1,2,3,4,5,7,8,9,10,19,20,21,31,32,33,34,54..58,63..66,255,256,257 "+
+		"(thorough adds 6,11,15..17,23..25,30,35,40,47..49,96,127..129,254,258,1024,65535..65537) x contents {min-of-length, max, high bit, leading zero, two leading zeros, all zero; "+
+		"every single-byte class} x header forms {short, long with 1,2,3,8 (thorough 1..8) size bytes, bare byte} x claimed size {n-1, n, n+1} x host {top level, struct field, "+
+		"list element (first/second), optional pointer field, tail slice} x scalar target {*big.Int, big.Int, uint64, uint, uint32, uint16, uint8, bool, []byte, string, "+
+		"[N]byte for N in 0,1,2,8,9,20,32,33,55,56,57,64,256}; and transactions / state accounts / block infos whose big-integer fields are sent with leading zero bytes "+
+		"padded to 2..256 bytes (must be rejected; unpadded control accepted); (b) every value of every generated type (13 leaf kinds x 9 container constructors, "+
 		"depth <= 2) with leaf values from boundary sets; (c) full boundary products of transaction / receipt / block-info / log / state-account / header fields. "+
 		"distinct_nontrivial counts distinct (target type or API, accept-or-rejection-class, recogniser verdict or structural shape of the input) triples for (a), "+
 		"distinct (constructor, leaf kind, shape of the encoding) for (b) and distinct field-choice vectors for (c); a case is non-trivial because every one executes the real codec.")
@@ -371,6 +392,20 @@ func main() {
 	}
 	r.Require(r.Get("strings") > 1000, "fewer than 1000 strings enumerated")
 	r.Require(r.Get("boundary_header_inputs_canonical") >= 20 && r.Get("boundary_header_inputs") > 500, "boundary header mutation inputs missing")
+	nScalarTargets := map[string]bool{}
+	for _, h := range scalarHosts {
+		for _, t := range scalarTargets[h.name] {
+			nScalarTargets[t.name] = true
+		}
+	}
+	r.Set("scalar_targets", len(nScalarTargets))
+	if os.Getenv("VERIF_C16_DEBUG") != "" {
+		fmt.Fprintf(os.Stderr, "scalar targets %d accepting %d rejecting %d\n", len(nScalarTargets), r.DistinctCount("scalar_targets_accepting"), r.DistinctCount("scalar_targets_rejecting"))
+	}
+	r.Require(r.DistinctCount("scalar_targets_accepting") == len(nScalarTargets) && r.DistinctCount("scalar_targets_rejecting") == len(nScalarTargets),
+		"some scalar target type never accepted or never rejected a size-class input")
+	r.Require(r.Get("scalar_inputs_canonical") >= 100 && r.Get("scalar_inputs") > 5000 && r.DistinctCount("scalar_size_classes") > 1000, "scalar size-class inputs missing")
+	r.Require(r.Get("noncanonical_int_chain_cases") > 50, "non-canonical integers in chain types not exercised")
 	r.Require(r.Get("alloc_measurements") > 1000, "fewer than 1000 allocation measurements")
 	r.Require(r.Get("values") > 5000, "fewer than 5000 generated values")
 	r.Require(r.Get("reference_encodings_compared") > 5000, "fewer than 5000 encodings compared with the reference")
